@@ -12,15 +12,15 @@ from __future__ import annotations
 import numpy as np
 from scipy.optimize import linprog
 
-from .. import gens
+from .. import forms, gens
 from ..common import Skip, brief
 
 ID = "C19"
 CASES = {"quick": 640, "thorough": 8000}
 FLOOR = {"quick": 520, "thorough": 6500}
 FLOOR_COUNTERS = {
-    "quick": {"membership_lps": 9000, "height_lps": 14000, "queries_judged": 9000, "relation_fits": 1000, "hulls_with_unselected": 400, "estimators_with_a_past": 500, "non_float64_features": 150, "non_default_tolerance": 120, "configured_by_attribute_assignment": 500},
-    "thorough": {"membership_lps": 140000, "height_lps": 220000, "queries_judged": 140000, "relation_fits": 14000, "hulls_with_unselected": 5000, "estimators_with_a_past": 7000, "non_float64_features": 2000, "non_default_tolerance": 1600, "configured_by_attribute_assignment": 7000},
+    "quick": {"membership_lps": 9000, "height_lps": 14000, "queries_judged": 9000, "relation_fits": 1000, "hulls_with_unselected": 400, "estimators_with_a_past": 500, "non_float64_features": 150, "non_default_tolerance": 120, "configured_by_attribute_assignment": 500, "calls_with_more_than_400000_queries": 6, "caller_buffers_overwritten_after_fit": 200},
+    "thorough": {"membership_lps": 140000, "height_lps": 220000, "queries_judged": 140000, "relation_fits": 14000, "hulls_with_unselected": 5000, "estimators_with_a_past": 7000, "non_float64_features": 2000, "non_default_tolerance": 1600, "configured_by_attribute_assignment": 7000, "calls_with_more_than_400000_queries": 80, "caller_buffers_overwritten_after_fit": 3000},
 }
 RULE = (
     "case = samples with 1-3 hull dimensions and 0-3 extra high-dimensional columns placed in any column order (low_dim_idx in "
@@ -73,6 +73,8 @@ def gen(rng, tier, index):
         "yunit": yunit,
         "xdtype": xdtype,
         "past": bool(rng.random() < 0.4),
+        "clobber": bool(rng.random() < 0.5),
+        "many_queries": bool(index % 64 == 9),
         "how": gens.pick(rng, ("ctor", "ctor", "setattr", "setattr_after_decoy")),
         "low": low,
         "kind": kind,
@@ -143,7 +145,11 @@ def run(case, j):
         return mm
 
     m = hull()
-    j.lib("fit", m.fit, Xin, y)
+    Xfit = np.array(Xin, copy=True) if case.get("clobber") else Xin
+    yfit = np.array(y, copy=True) if case.get("clobber") else y
+    j.lib("fit", m.fit, Xfit, yfit)
+    if case.get("clobber"):
+        forms.clobber(Xfit, yfit, j=j)  # the caller re-uses its training buffers; the hull keeps what it needs
     sel = set(int(v) for v in m.selected_idx_)
     ys = max(1.0, float(np.abs(y).max()))
     tol = 1e-7 * ys
@@ -201,6 +207,37 @@ def run(case, j):
             else:
                 j.close("query on the surface: zero distance", v, 0.0, tol)
             j.note("queries_judged")
+    # ---- one call with more queries than an implementation would evaluate in one batch (2^17 ... 2^19 rows); the rows
+    #      are copies of queries whose hull height is known, at offsets above / on / below the surface, in an order that
+    #      puts below-surface rows late
+    if case.get("many_queries"):
+        base = []
+        for lam in case["lam"][:4]:
+            q = lam @ P
+            hh = _height(P, y, q)
+            if hh is not None:
+                base.append((q, hh))
+        if base:
+            reps = 420000 // (3 * len(base)) + 1
+            rows, yv, offs = [], [], []
+            for off in (0.7 * ys, 0.0, -0.7 * ys):
+                for q, hh in base:
+                    xr = np.zeros(X.shape[1])
+                    xr[low] = q
+                    rows.append(xr)
+                    yv.append(hh + off)
+                    offs.append(off)
+            Xq = np.tile(np.array(rows), (reps, 1))
+            yq = np.tile(np.array(yv), reps)
+            oq = np.tile(np.array(offs), reps)
+            order = np.argsort(-oq, kind="stable")  # above first, below last
+            Xq, yq, oq = Xq[order], yq[order], oq[order]
+            vq = np.asarray(j.lib("score_samples (one large call)", m.score_samples, Xq, yq))
+            up, on, dn = oq > 0, oq == 0, oq < 0
+            j.close(f"{len(yq)} queries in one call: distance above the surface == vertical offset", vq[up], oq[up], tol)
+            j.close("... on the surface: zero", vq[on], 0.0 * oq[on], tol)
+            j.ok("... below the surface: negative", bool(np.all(vq[dn] < 0)), float(vq[dn].max()))
+            j.note("calls_with_more_than_400000_queries")
     # ---- relations
     a, b = case["a"], case["b"]
     b = b * ys
